@@ -376,8 +376,12 @@ class TreeTransformBase(TreeTransform):
         for trans_id in self._removed_id:
             path = self.tree_path(trans_id)
             if path is not None:
-                if self._tree.stored_kind(path) == "directory":
-                    parents.append(trans_id)
+                try:
+                    if self._tree.stored_kind(path) == "directory":
+                        parents.append(trans_id)
+                except NoSuchFile:
+                    # unversioning a path that is not versioned is a no-op
+                    pass
             elif self.tree_kind(trans_id) == "directory":
                 parents.append(trans_id)
 
@@ -2012,11 +2016,30 @@ class InventoryTreeTransform(DiskTreeTransform):
                     file_id = self._tree.path2id("")
                 else:
                     file_id = self.tree_file_id(trans_id)
+                # Unversioning a path that is not versioned is a no-op
+                if file_id is None:
+                    continue
                 # File-id isn't really being deleted, just moved
                 if file_id in self._r_new_id:
                     continue
                 path = self._tree_id_paths[trans_id]
                 inventory_delta.append((path, None, file_id, None))
+            # An entry that is versioned in the tree and is given another
+            # file id without being unversioned changes its id: the old id
+            # does not stay behind at the old path.
+            for trans_id, file_id in self._new_id.items():
+                if trans_id in self._removed_id:
+                    continue
+                old_file_id = self.tree_file_id(trans_id)
+                if (
+                    old_file_id is None
+                    or old_file_id == file_id
+                    or old_file_id in self._r_new_id
+                ):
+                    continue
+                inventory_delta.append(
+                    (self._tree_id_paths[trans_id], None, old_file_id, None)
+                )
             new_path_file_ids = {t: self.final_file_id(t) for p, t in new_paths}
             for num, (path, trans_id) in enumerate(new_paths):
                 if (num % 10) == 0:
